@@ -160,6 +160,7 @@ func rewardsProfile() Profile {
 	p.NAssetsMin = 1
 	p.InvalidPct = 3
 	p.Weights[GRedelThenExit] = 3
+	p.Weights[GWeightChangeOut] = 3
 	return p
 }
 
@@ -229,13 +230,18 @@ func init() {
 			p.ChInts = []int64{0, 1, sec, 300 * sec, day}
 			p.Weights[KUpdate] = 10
 			p.Weights[KClaim] = 6
+			p.Weights[KJail] = 1
+			p.Weights[KUnjail] = 1
+			p.Weights[GWeightChangeOut] = 4
 			p.NAssetsMin = 2
 			return tierSteps(p, tier)
 		},
 		Oracles: func() []Oracle {
 			// "before its reward start time an asset carries no voting power": C10's target oracle
-			// (which excludes warm-up assets) runs as a sub-check
-			return []Oracle{OracleC14{}, Relabel{OracleC10{}, "C14", "voting-power:"}}
+			// (which excludes warm-up assets) runs as a sub-check; "a weight change affects only
+			// rewards received afterwards": C13's entitlement reference (weights at accrual time) runs
+			// as a sub-check
+			return []Oracle{OracleC14{}, Relabel{OracleC10{}, "C14", "voting-power:"}, Relabel{NewOracleC13(), "C14", "not-retroactive:"}}
 		},
 		NonTrivial: func(x *Exec) bool {
 			return x.Has("c14:multi-interval-decay") || x.Has("c14:several-assets-decay-in-one-block")
